@@ -250,10 +250,19 @@ def check_new(ctx: Check, tree: Tree) -> bool:
     new = tree.cls(POOLSUM).methods.get("__new__")
     if new is None:
         return False
+    import re
+
     for node in walk_function(new.node):
-        if isinstance(node, ast.If) and "len(values) == 0" in unparse(node.test) and any(isinstance(s, ast.Raise) for s in node.body):
+        if isinstance(node, ast.If) and re.fullmatch(r"len\(\w+\) == 0", unparse(node.test)) and any(isinstance(s, ast.Raise) for s in node.body):
             return True
     return False
+
+
+def _name_safe(text: str, idx: str, values: str) -> str:
+    import re
+
+    text = re.sub(rf"\b{re.escape(idx)}\b", "<index>", text)
+    return re.sub(rf"\b{re.escape(values)}\b", "<pool>", text)
 
 
 def check_cleanup(ctx: Check, tree: Tree) -> None:
@@ -273,7 +282,7 @@ def check_cleanup(ctx: Check, tree: Tree) -> None:
     # paths through one loop iteration only: wrap the body
     seen: dict[str, tuple] = {}
     for events, status, _ in walker._block(loop.body, fn, 0):
-        tests = [(unparse(e[1]), e[2]) for e in events if e[0] == "test"]
+        tests = [(_name_safe(unparse(e[1]), idx, values), e[2]) for e in events if e[0] == "test"]
         stmts = [e[1] for e in events if e[0] == "stmt"]
         retained = any(
             isinstance(s, ast.Expr) and isinstance(s.value, ast.Call) and isinstance(s.value.func, ast.Attribute) and s.value.func.attr in {"append", "add"}
@@ -284,6 +293,7 @@ def check_cleanup(ctx: Check, tree: Tree) -> None:
         )
         compensated = any(f"len({values})" in unparse(s) and isinstance(s, (ast.Assign, ast.AugAssign)) for s in stmts)
         cond = " and ".join(f"{'' if o else 'not '}({t})" for t, o in tests) or "always"
+
         fate = "retained" if retained else "substituted" if substituted else "compensated" if compensated else "dropped"
         seen[cond] = (fate, tests)
     if len(seen) < 3:
@@ -300,14 +310,14 @@ def check_cleanup(ctx: Check, tree: Tree) -> None:
             else:
                 ctx.ok("R-DROP", where, what)
             continue
-        if any(f"len({values}) == 0" in t and o for t, o in tests) and empty_rejected:
+        if any("len(<pool>) == 0" in t and o for t, o in tests) and empty_rejected:
             ctx.ok("R-DROP", where, what + " - dead path: PoolSum.__new__ rejects empty pools")
             continue
         ctx.violation(
             "R-DROP",
             f"{POOLSUM}.cleanup::drop::{cond}",
             where,
-            what + f" without the factor len({values})",
+            what + " without the factor len(<pool>)",
             "PoolSum(x, (i, [0,1,2])): .doit() = 3*x, .cleanup() = x - an index that does not occur in the summand still multiplies the sum by its pool size",
         )
     # the rebuilt sum uses the substituted summand and all retained indices
